@@ -357,6 +357,11 @@ func (vc *FnVC) enterBlock(fr *frame, b *ssa.BasicBlock) *state {
 	// havoc
 	hs := st.clone()
 	hs.reach = vc.freshConst(fmt.Sprintf("reach:%s.loop%d", fr.fn.Name(), li.ord), "Bool")
+	// One direction only: a loop head is reached only after the loop was entered, so whatever was established on the way to
+	// the entry edges (facts guarded by the reach flags of the dominating blocks) is available inside and after the loop.
+	// The converse (entry ==> head) is NOT assumed: together with the assumed invariant it would make a false invariant
+	// refute its own inv-init obligation.
+	vc.assume(hs.reach, st.reach)
 	if li.modAll {
 		vc.havocAll(hs)
 		vc.note("loop %d of %s: contains a call with unknown frame; whole heap havocked at the loop head", li.ord, fr.fn.Name())
